@@ -108,6 +108,10 @@ func checkReject(scen string, in RejectIn) *mc.Violation {
 	if err == nil {
 		return mc.V(scen, "near-miss-rejected", in, "error ("+in.Class+")", fmt.Sprintf("accepted as %+v", got), "class:"+in.Class)
 	}
+	// a string that was refused once is refused again (whatever the library remembers about it)
+	if again, err2 := parseVia(in.Via, in.Text); err2 == nil {
+		return mc.V(scen, "near-miss-rejected", in, "error ("+in.Class+") the second time too", fmt.Sprintf("accepted as %+v when the same string was parsed again", again), "class:"+in.Class)
+	}
 	return nil
 }
 
@@ -485,6 +489,23 @@ func checkReuse(scen string, in ReuseIn) *mc.Violation {
 	}
 	if v != want {
 		return mc.V(scen, "parts-exact-into-reused-value", in, fmt.Sprintf("%+v", want), fmt.Sprintf("%+v", v))
+	}
+	// a value decoded earlier into a variable that was since reused is still decoded correctly into a fresh variable
+	if firstWant, ferr := version.Parse(in.First); ferr == nil {
+		var fresh version.Version
+		var e3 error
+		switch in.Via {
+		case "text":
+			e3 = fresh.UnmarshalText([]byte(in.First))
+		case "json":
+			b, _ := json.Marshal(in.First)
+			e3 = json.Unmarshal(b, &fresh)
+		default:
+			e3 = fresh.UnmarshalControl(in.First)
+		}
+		if e3 != nil || fresh != firstWant {
+			return mc.V(scen, "parts-exact-into-reused-value", in, fmt.Sprintf("%+v", firstWant), fmt.Sprintf("the first text decoded again into a fresh variable, after the variable it was first decoded into was reused: %+v %v", fresh, e3))
+		}
 	}
 	// the text handed to UnmarshalText belongs to the caller: overwriting the buffer afterwards (with the other text, then
 	// with filler) must not change what was parsed from it
